@@ -32,6 +32,9 @@ def run(ctx):
         jobs.append(Job("c16.py", "h_lex", {"K": K, "fixed_kind": True}, T, 30, tag=f"token positions K={K}", meta={"sigtag": "lex"}))
     # quick: Python only (indentation blocks are the delicate case; brace languages are covered by the mutants and by thorough) (C, C++ and C# share all pairing code; TypeScript shares JavaScript's arrow pattern); thorough: all seven, N=3
     plan = {l: 2 for l in ("Python",)} if ctx.quick() else {"Python": 3, "C": 3, "JavaScript": 3, "Java": 2, "TypeScript": 2, "Cpp": 2, "CSharp": 2}
-    jobs += soup_common.soup_jobs(ctx, "wellformed", plan, framed=True, tolerate=AMBIG)
-    jobs += soup_common.mutation_jobs(ctx, ["two", "stmt-mix", "nested-middle", "nested-two", "class-methods", "x-arrow-then-fn", "x-arrow-encloses-fn"] if ctx.quick() else None, tolerate=AMBIG)
-    ctx.run_xh(jobs)
+    muts = soup_common.mutation_jobs(ctx, ["two", "stmt-mix", "nested-middle", "nested-two", "class-methods", "x-arrow-then-fn", "x-arrow-encloses-fn"] if ctx.quick() else None, tolerate=AMBIG)
+    soups = soup_common.soup_jobs(ctx, "wellformed", plan, framed=True, tolerate=AMBIG)
+    # order for the tier's wall budget: the short, diverse conditions (file level, bookkeeping, mutants) first, then the pairing units, the soups last
+    short = [j for j in jobs if j.func != "h_scopes"]
+    units = [j for j in jobs if j.func == "h_scopes"]
+    ctx.run_xh(short + muts + units + soups)
